@@ -15,7 +15,8 @@ elab "#audit " ns:ident : command => do
       | .thmInfo _ =>
         let last := n.getString!
         if !(last.startsWith "eq_" || last.startsWith "match_" || last.startsWith "proof_"
-             || last.startsWith "_") then
+             || last.startsWith "_" || last == "sizeOf_spec" || last == "inj" || last == "injEq"
+             || last == "ofNat_ctorIdx" || last == "noConfusion") then
           names := names.push n
       | _ => pure ()
   let sorted := names.qsort (fun a b => a.toString < b.toString)
